@@ -209,8 +209,10 @@ def recordsOf (d : Decoded) (clock : R) (mods : Nat) : Out (List Bool × List (T
 def oneShotSkills (A : SecArith R) (fuel : Nat) (hitWindow : R) (hits : List Bool)
     (recs : List (TObj R)) (take : Nat) : Nat × Res (Skills R) :=
   let c := Gradual.taikoCreate hits take
-  -- `n_diff_objects.saturating_sub(1)`; the iterator also ends with the list
-  (c.2.1, calculate A fuel hitWindow false (c.2.2 - 1) recs)
+  -- `n_diff_objects.saturating_sub(1)`; `if take >= total hits { n_diff_objects = diff_objects.objects.len(); }`
+  -- (the fix of the trailing drum rolls / swells); the iterator also ends with the list
+  let n := if take ≥ (hits.filter id).length then recs.length else c.2.2 - 1
+  (c.2.1, calculate A fuel hitWindow false n recs)
 
 /-- clock rate as in `Model/PipelineMania.lean` -/
 def clockRateBits (mods : Nat) (custom : Option Nat) : Nat :=
